@@ -129,7 +129,7 @@ type Catalogue struct {
 	Msgs map[uint64]*soymsg.Message
 }
 
-func (c *Catalogue) Locale() string                   { return c.Loc }
+func (c *Catalogue) Locale() string                    { return c.Loc }
 func (c *Catalogue) Message(id uint64) *soymsg.Message { return c.Msgs[id] }
 func (c *Catalogue) PluralCase(n int) int              { return 0 }
 
